@@ -164,6 +164,19 @@ Section Machine2.
     eapply run_orelse_hit; [apply run_eat_hit; [reflexivity|exact Ht]|]. exact H.
   Qed.
 
+  Lemma pl_primary_super f stk t (a : expr) t' : t <> [] ->
+    run (IFLET _ <== eat_simple SDot true
+         THEN (fn <- expect_ident true ;; sp <- mk_span sp0 (id_span fn) ;; PL f (StParsed (ESuperField sp sp0 fn)) stk)
+         ELSE IFLET _ <== eat_simple SLeftBracket true
+              THEN (ie <- pexpr ;; en <- expect_simple SRightBracket true ;; sp <- mk_span sp0 en ;;
+                    PL f (StParsed (ESuperIndex sp sp0 ie)) stk)
+              ELSE report_expected) t a t' ->
+    run (PL (S f) StPrimary stk) (sim KSuper :: t) a t'.
+  Proof.
+    intros Ht H. cbn [pe_loop]. do 3 (eapply run_orelse_miss; [run_compute|]).
+    eapply run_orelse_hit; [apply run_eat_hit; [reflexivity|exact Ht]|]. exact H.
+  Qed.
+
   Lemma pl_primary_function f stk t (a : expr) t' : t <> [] ->
     run (_ <- expect_simple SLeftParen true ;;
          '(params, _) <- parse_params pexpr (S lf) ;;
